@@ -30,6 +30,7 @@
 #include <linux/futex.h>
 #include <time.h>
 #include <memory>
+#include <new>
 #include <sstream>
 #include <iomanip>
 #include <cmath>
@@ -52,6 +53,26 @@ NO_TSAN static void baton_wait(int idx) {
     struct timespec ts = {0, 2000000};  // a lost wake-up costs 2 ms, never a hang
     syscall(SYS_futex, (int*)&g_pos, FUTEX_WAIT_PRIVATE, v, &ts, nullptr, 0);
   }
+}
+
+// ------------------------------------------------------------------------------------------------ allocation faults, per thread
+// The k-th allocation of the calling thread fails (0 = never): a fault inside one client while the others keep running.
+static thread_local long tl_alloc_countdown = 0;
+static thread_local long tl_alloc_count = 0;
+static thread_local long tl_faults_fired = 0;
+// ThreadSanitizer's runtime defines the global operator new itself, so it cannot be replaced: the calls made from this
+// translation unit (all the GUDHI code is compiled here) are redirected by the linker (-Wl,--wrap=_Znwm,--wrap=_Znam).
+extern "C" void* __real__Znwm(std::size_t);
+extern "C" void* __real__Znam(std::size_t);
+extern "C" void* __wrap__Znwm(std::size_t n) {
+  ++tl_alloc_count;
+  if (tl_alloc_countdown > 0 && --tl_alloc_countdown == 0) throw std::bad_alloc();
+  return __real__Znwm(n);
+}
+extern "C" void* __wrap__Znam(std::size_t n) {
+  ++tl_alloc_count;
+  if (tl_alloc_countdown > 0 && --tl_alloc_countdown == 0) throw std::bad_alloc();
+  return __real__Znam(n);
 }
 
 // ------------------------------------------------------------------------------------------------ actors
@@ -96,7 +117,18 @@ struct StActor : Actor {
       std::vector<SH> mx; for (auto sh : st.complex_simplex_range()) { bool cof = false; for (auto x : st.cofaces_simplex_range(sh, 1)) { (void)x; cof = true; break; } if (!cof) mx.push_back(sh); }
       if (!mx.empty()) { st.remove_maximal_simplex(mx[a % mx.size()]); res = 1; }
     } else if (k == 6) { res = st.prune_above_filtration(f); }
-    else if (k == 7) { ST cp(st); res = mix(digest(cp), (uint64_t)(cp == st)); if (c % 3 == 0) { ST mv(std::move(cp)); res = mix(res, digest(mv)); } }
+    else if (k == 7) {
+      if (c % 4 == 1) {
+        // F3 in a thread: the (a mod count)-th allocation of a copy of this client's tree fails while the other clients go on
+        tl_alloc_count = 0; { ST probe(st); } long total = tl_alloc_count;
+        if (total > 0) {
+          bool thrown = false; tl_alloc_countdown = 1 + a % total;
+          try { ST cp(st); res = digest(cp); } catch (const std::bad_alloc&) { thrown = true; ++tl_faults_fired; }
+          tl_alloc_countdown = 0;
+          res = mix(res, mix((uint64_t)thrown, (uint64_t)total));
+        }
+      } else { ST cp(st); res = mix(digest(cp), (uint64_t)(cp == st)); if (c % 3 == 0) { ST mv(std::move(cp)); res = mix(res, digest(mv)); } }
+    }
     else if (k == 8) {
       size_t sz = st.get_serialization_size(); std::unique_ptr<char[]> buf(new char[sz ? sz : 1]); st.serialize(buf.get(), sz);
       ST back; back.deserialize(buf.get(), sz); res = mix(digest(back), (uint64_t)sz);
@@ -259,12 +291,12 @@ static Actor* make_actor(const std::string& kind) {
 // ------------------------------------------------------------------------------------------------ one client = one thread
 struct Slot {
   std::string kind; std::vector<int> mine;  // indices of this client's ops in the plan
-  std::vector<uint64_t> out; std::string err; int err_at = -1;
+  std::vector<uint64_t> out; std::string err; int err_at = -1; long faults = 0;
 };
 struct Job { const sim::Plan* plan; Slot* slot; bool threaded; };
 
 static void run_client(const sim::Plan& p, Slot& s, bool threaded) {
-  std::unique_ptr<Actor> actor; bool dead = false;
+  std::unique_ptr<Actor> actor; bool dead = false; tl_faults_fired = 0;
   for (size_t k = 0; k < s.mine.size(); ++k) {
     int idx = s.mine[k];
     if (threaded) baton_wait(idx);
@@ -277,6 +309,7 @@ static void run_client(const sim::Plan& p, Slot& s, bool threaded) {
     }
     s.out[k] = h;
     if (k + 1 == s.mine.size()) actor.reset();  // destroyed by its owner while the other clients are still alive
+    if (k + 1 == s.mine.size()) s.faults = tl_faults_fired;
     if (threaded) baton_set(idx + 1);
   }
 }
@@ -326,6 +359,7 @@ static void execute(const sim::Plan& p, sim::Run& r) {
              (thr[c].err.empty() ? "" : " (threaded: exception " + thr[c].err + ")") + (solo[c].err.empty() ? "" : " (alone: exception " + solo[c].err + ")"));
   }
   r.count("fault.thread_switches", switches);
+  { long f = 0; for (int c = 0; c < nc; ++c) f += thr[c].faults; if (f) r.count("fault.alloc_failed_in_thread", f); }
   for (int c = 0; c < nc; ++c) if (!solo[c].err.empty()) r.count("probe.actor_exception");
   r.mutated = true; r.audited = true;
 }
